@@ -34,7 +34,9 @@ let () =
       (match ref_open (bytes_of_hex arch) with
        | None -> "OPEN-ERR"
        | Some ar ->
-         let rd n = match ref_read inflate ar (bytes_of_hex n) with Some d -> "OK:" ^ hex_of_bytes d | None -> "FAIL" in
+         let rd n = match ref_read inflate ar (bytes_of_hex n) with
+           | Some d -> "OK:" ^ hex_of_bytes d
+           | None -> (match ref_table_sane ar (bytes_of_hex n) with Some false -> "FAIL:table" | _ -> "FAIL") in
          let out = String.concat "," (List.map (fun n -> n ^ ">" ^ rd n) (String.split_on_char ',' names)) in
          if !misses <> [] then need () else out)
     | _ -> "ERR args");
